@@ -149,7 +149,8 @@ theorem shift_cases (q : NodeQueue) (i : Nat) (n : Node) (q' : NodeQueue) (h : q
 theorem appendRoot_nomerge (C : Crypto) (cs : Changeset) (n : Node) (it : Iter)
     (h : ∀ b, cs.roots.getLast? = some b → it.sibling.index ≠ b.index) :
     (appendRoot C cs n it).1.roots = cs.roots ++ [n]
-      ∧ ((appendRoot C cs n it).2 = it ∨ (appendRoot C cs n it).2 = it.sibling.sibling) := by
+      ∧ ((appendRoot C cs n it).2 = it ∨ (appendRoot C cs n it).2 = it.sibling.sibling)
+      ∧ (appendRoot C cs n it).1.rnodes = n :: cs.rnodes := by
   unfold appendRoot
   cases hr : cs.roots.reverse with
   | nil =>
@@ -165,7 +166,7 @@ theorem appendRoot_nomerge (C : Crypto) (cs : Changeset) (n : Node) (it : Iter)
       have := congrArg List.reverse hr
       simpa using this
     simp only [mergeLoop, hne, ne_eq, not_false_eq_true, ite_true]
-    refine ⟨?_, by simp⟩
+    refine ⟨?_, by simp, by simp⟩
     simp [hroots]
 
 /-! ### the root loop of `verify_upgrade` on a replica without roots -/
@@ -215,7 +216,7 @@ theorem upgradeRoots_fresh (C : Crypto) (T : Nat) (hT : T < 2 ^ 64) : ∀ (fuel 
             have hlt : 2 ^ J < 2 ^ m := by omega
             have := (Nat.pow_lt_pow_iff_right (by decide : 1 < 2)).mp hlt
             omega
-          obtain ⟨hroots, hit⟩ := appendRoot_nomerge C st.cs n (iat J (s / 2 ^ J)) hnm
+          obtain ⟨hroots, hit, _⟩ := appendRoot_nomerge C st.cs n (iat J (s / 2 ^ J)) hnm
           have hit' : (appendRoot C st.cs n (iat J (s / 2 ^ J))).2 = iat J (s / 2 ^ J) := by
             rcases hit with e | e
             · exact e
@@ -886,7 +887,7 @@ theorem upgradeRoots_back (C : Crypto) (bs : Array Bytes) (T : Nat) (hT : T < 2 
               have hlt : 2 ^ J < 2 ^ m := by omega
               have := (Nat.pow_lt_pow_iff_right (by decide : 1 < 2)).mp hlt
               omega
-            obtain ⟨hroots, hit⟩ := appendRoot_nomerge C st.cs n (iat J (s / 2 ^ J)) hnm
+            obtain ⟨hroots, hit, _⟩ := appendRoot_nomerge C st.cs n (iat J (s / 2 ^ J)) hnm
             have hit' : (appendRoot C st.cs n (iat J (s / 2 ^ J))).2 = iat J (s / 2 ^ J) := by
               rcases hit with e | e
               · exact e
